@@ -194,9 +194,27 @@ def rule_flags(ctx) -> None:
     m = {prog.fold(k, gh.module): norm(v).split(".")[-1] for k, v in zip(d[0].keys, d[0].values)} if d else {}
     chk.decide(m == {1: "SHA256", 2: "SHA384"} and "[flags & 15]" in norm(gh.node), "C03.flags", gh.qual, "curve nibble 1 -> SHA-256, 2 -> SHA-384", f"{m}", "", A.loc(CB, gh.node))
     # single key: the hash is over the raw x||y carried in the record, with the flags' algorithm
-    t = norm(pa.node)
-    chk.decide("RKHTv21([get_hash(root_key_record.root_public_key, cls.get_hash_algorithm(flags))])" in t and "root_key_record.root_public_key = data[offset:offset + rotkh_len * 2]" in t, "C03.sibling-constructions", pa.qual + " single key",
-               "one key: hash of the raw x||y (2 x coordinate length) with the flags' algorithm - the same bytes _calc_key_hash hashes", "", "", A.loc(CB, pa.node))
+    # (attribute stores along the symbolic paths: temporaries, named sizes and a hoisted algorithm lookup do not matter)
+    probs, n_single = [], 0
+    for q in A.spaths(pa.node):
+        if q.end != "return" or not q.assumes("(flags & 240) >> 4 <= 1", True):
+            continue
+        n_single += 1
+        st_ = {}
+        for s2 in q.sstmts:
+            if isinstance(s2, ast.Assign) and isinstance(s2.targets[0], ast.Attribute):
+                st_[norm(s2.targets[0])] = ctx.vnorm(pa, s2.value)
+        size = next((v for k, v in ((0, 32), (1, 32), (2, 48)) if q.assumes(f"flags & 15 == {k}", True)), None)
+        want_key = f"data[4:{4 + 2 * size}]" if size else None
+        rk = next((v for k, v in st_.items() if k.endswith(".root_public_key")), None)
+        rh = next((v for k, v in st_.items() if k.endswith("._rkht")), None)
+        holder = next((k[: -len(".root_public_key")] for k in st_ if k.endswith(".root_public_key")), "?")
+        if rk != want_key:
+            probs.append(f"coordinate size {size}: root public key = {rk} (expected {want_key})")
+        if rh != f"RKHTv21([get_hash({holder}.root_public_key, cls.get_hash_algorithm(flags))])":
+            probs.append(f"coordinate size {size}: table = {rh}")
+    chk.decide(not probs and n_single >= 2, "C03.sibling-constructions", pa.qual + " single key",
+               "one key: hash of the raw x||y (2 x coordinate length, right behind the flags word) with the flags' algorithm - the same bytes _calc_key_hash hashes", "; ".join(probs[:2]) or f"{n_single} single-key paths", "", A.loc(CB, pa.node))
     crp = ctx.own(CB, "RootKeyRecord", "_create_root_public_key")
     chk.decide("root_key = self.root_certs[self.used_root_cert]" in norm(crp.node) and "root_key.export()" in norm(crp.node), "C03.sibling-constructions", crp.qual, "the record carries the selected root key (x||y export)", "", "", A.loc(CB, crp.node))
 
